@@ -4,18 +4,46 @@ package sherpa
 
 // Contracts for govc (see /verif/DESIGN.md). Comment-only file: contributes no code.
 
+// C18 / C02: the relay loop of the sherpa engine. Per iteration: one timed read (performTimedRead: a goroutine per read
+// and a timer, trusted below), then processReadResult (write + flush). In streaming mode nothing this loop wrote is left
+// unflushed when it goes back to read; it only writes to w; its errors are never one of the retry handler's own classes.
 //@ func (s *Service) streamResponseWithTimeout
-//@   trusted not yet under contract: the goroutine-per-read streaming loop (see C18); assumed to write only to w
-//@   modifies ghost(w).started, ghost(w).status
+//@   property C18 C02
+//@   safety
+//@   requires s != nil && s.configuration != nil && w != nil && resp != nil && resp.Body != nil && rlog != nil
+//@   modifies ghost(w).started, ghost(w).status, gvar unflushed, gvar evBroken, ghost remaining, ghost backing, SimpleRingBuffer.data
+//@   loop 1 invariant (old(ghost(w).started) ==> ghost(w).started) && (old(evBroken) ==> evBroken) && state != nil && fresh(state) && rc != nil && state.lastChunkBuffer != nil && fresh(state.lastChunkBuffer) && rbOK(state.lastChunkBuffer)
+//@   loop 1 invariant state.isStreaming ==> unflushed == 0 || unflushed == old(unflushed) || evBroken
 //@   ensures old(ghost(w).started) ==> ghost(w).started
 //@   ensures !errorsAs(res2, "*core.ResponseStartedError") && !errorsIs(res2, core.ErrCircuitOpen)
+
+// one read with a stall timer: the read runs in its own goroutine and hands its result over a channel (outside the
+// sequential subset). Trusted: a delivered result is what body.Read returned (0 <= n <= len(buffer)); the errors are
+// the timer's own message; only the read bookkeeping of state is written.
+//@ func (s *Service) performTimedRead
+//@   property C18
+//@   trusted
+//@   modifies state.readCount, state.lastReadTime, ghost remaining
+//@   ensures res0 != nil ==> 0 <= res0.n && res0.n <= len(buffer) && !errorsAs(res0.err, "*core.ResponseStartedError") && !errorsIs(res0.err, core.ErrCircuitOpen)
+//@   ensures !errorsAs(res1, "*core.ResponseStartedError") && !errorsIs(res1, core.ErrCircuitOpen)
+
+//@ func (s *Service) createCombinedContext
+//@   property C18
+//@   trusted
+
+//@ func (s *Service) handleContextCancellation
+//@   property C18 C02
+//@   safety
+//@   requires s != nil && s.configuration != nil && state != nil && rlog != nil
+//@   modifies state.clientDisconnected
+//@   ensures !errorsAs(res, "*core.ResponseStartedError") && !errorsIs(res, core.ErrCircuitOpen)
 
 // One attempt of the sherpa engine. The clauses are those of functype core.ProxyFunc (C02: an error that makes the
 // retry handler move on leaves the client's response untouched), C19 (exactly one success/failure record per
 // attempt, at most one upstream round trip) and C01/C15 (what is handed to the transport).
 //@ func (s *Service) proxyToSingleEndpoint
 //@   property C01 C02 C15 C19
-//@   requires s != nil && r != nil && r.URL != nil && endpoint != nil && endpoint.URL != nil && stats != nil
+//@   requires s != nil && s.configuration != nil && w != nil && rlog != nil && r != nil && r.URL != nil && endpoint != nil && endpoint.URL != nil && stats != nil
 //@   requires !ghost(w).started && ghost(w).hdr != nil
 //@   uses rse_not_circuit
 //@   modifies *
@@ -45,15 +73,21 @@ package sherpa
 //@   requires s != nil && w != nil && rc != nil && state != nil && rlog != nil && rbOK(state.lastChunkBuffer)
 //@   modifies ghost(w).started, ghost(w).status, gvar unflushed, gvar evBroken, state.totalBytes, state.bytesAfterDisconnect, SimpleRingBuffer.data
 //@   ensures old(evBroken) ==> evBroken
-//@   ensures state.isStreaming && res == nil && old(unflushed) == 0 ==> unflushed == 0 || evBroken
+//@   ensures state.isStreaming && res == nil ==> unflushed == 0 || unflushed == old(unflushed) || evBroken
+//@   ensures rbOK(state.lastChunkBuffer)
+//@   ensures old(ghost(w).started) ==> ghost(w).started
+//@   ensures !errorsAs(res, "*core.ResponseStartedError") && !errorsIs(res, core.ErrCircuitOpen)
 
 //@ func (s *Service) processReadResult
 //@   property C18
 //@   safety
-//@   requires s != nil && result != nil && w != nil && rc != nil && state != nil && rlog != nil && result.n >= 0 && result.n <= len(buffer) && rbOK(state.lastChunkBuffer)
+//@   requires s != nil && result != nil && w != nil && rc != nil && state != nil && rlog != nil && result.n >= 0 && result.n <= len(buffer) && rbOK(state.lastChunkBuffer) && !errorsAs(result.err, "*core.ResponseStartedError") && !errorsIs(result.err, core.ErrCircuitOpen)
 //@   modifies ghost(w).started, ghost(w).status, gvar unflushed, gvar evBroken, state.totalBytes, state.bytesAfterDisconnect, SimpleRingBuffer.data
 //@   ensures old(evBroken) ==> evBroken
-//@   ensures state.isStreaming && res1 == nil && old(unflushed) == 0 ==> unflushed == 0 || evBroken
+//@   ensures state.isStreaming && res1 == nil ==> unflushed == 0 || unflushed == old(unflushed) || evBroken
+//@   ensures rbOK(state.lastChunkBuffer)
+//@   ensures old(ghost(w).started) ==> ghost(w).started
+//@   ensures !errorsAs(res1, "*core.ResponseStartedError") && !errorsIs(res1, core.ErrCircuitOpen)
 
 // the last-bytes ring buffer (feeds metrics extraction, C20): slice bounds hold for every write, the buffer never grows
 // beyond its capacity
@@ -98,3 +132,7 @@ package sherpa
 //@   modifies *
 //@   ensures reqCount == old(reqCount) + 1
 //@   ensures recSuccess + recFailure - (old(recSuccess) + old(recFailure)) == reqCount - old(reqCount)
+
+//@ func (c *Configuration) GetProxyProfile
+//@   property C18
+//@   ensures true
